@@ -12,6 +12,8 @@ import json
 import os
 import random
 
+import re
+
 from . import engine, tlc
 from .engine import Run
 
@@ -89,28 +91,36 @@ def fam_script(retries_list, gaps, faults_key="full", conn_variants=True, kinds=
     unanswered (silent request after a history), the third answered promptly (next request works)."""
     out = []
     al = alphabet()[faults_key]
+    nvar = 0
     for kind in kinds:
         fr = FRAMING[kind]
-        conc = [c for mf in al for c in concrete(mf, fr, scale)]
         conns = [[]]
         if conn_variants:
             conns = [[], ["unreach"]] if kind == "udp" else [[], ["refused"], ["hang"], ["ok", "refused"]]
         for ka in (True, False):
             for r in retries_list:
-                scripts = itertools.product(conc, repeat=r + 1)
-                scripts = list(scripts)
+                scripts = list(itertools.product(al, repeat=r + 1))
                 if limit is not None and len(scripts) > limit:
                     scripts = rnd.sample(scripts, limit)
                 for script in scripts:
-                    for g in gaps:
-                        for cn in conns:
-                            sc = base(kind, ka, r, t=T * scale)
-                            sc["epochs"] = [[{"start": 0, "prog": [req(100), {"do": "sleep", "d": g * scale}, req(101),
-                                                                    {"do": "sleep", "d": g * scale}, req(102)]}]]
-                            sc["rfaults"] = [list(script), [], [{"k": "ans", "d": scale}]]
-                            sc["connects"] = list(cn)
-                            sc["family"] = "script"
-                            out.append(sc)
+                    # every abstract fault is refined to one of its concrete variants (garbage / short / bad checksum rotate)
+                    variants = [concrete(mf, fr, scale) for mf in script]
+                    nv = max(len(v) for v in variants)
+                    for vi in range(nv):
+                        conc = [v[(vi + nvar) % len(v)] for v in variants]
+                        for g in gaps:
+                            for cn in conns:
+                                sc = base(kind, ka, r, t=T * scale)
+                                sc["epochs"] = [[{"start": 0, "prog": [req(100), {"do": "sleep", "d": g * scale}, req(101),
+                                                                        {"do": "sleep", "d": g * scale}, req(102)]}]]
+                                sc["rfaults"] = [list(conc), [], [{"k": "ans", "d": scale}]]
+                                sc["connects"] = list(cn)
+                                sc["family"] = "script"
+                                if scale == 1:
+                                    sc["abstract"] = {"rf": [list(script), [], [{"k": "ans", "d": 1, "d2": 0, "x": 0}]],
+                                                      "conn": list(cn), "gap": g}
+                                out.append(sc)
+                    nvar += 1
     return out
 
 
@@ -300,7 +310,7 @@ def fam_random(n: int, rnd: random.Random, assume: bool = False, max_callers: in
         scale = rnd.choice([1, 1, 2, 6])
         nc = rnd.randint(2, max_callers) if assume else 1
         nreq = rnd.randint(1, 3)
-        conc = [c for mf in full for c in concrete(mf, fr, scale)]
+        conc = [c for mf in full for c in concrete(mf, fr, scale)] + ([] if assume else [{"k": "fgarbage", "d": scale}])
         sc = base(kind, ka, retries, t=T * scale)
         callers = []
         reg = 100
@@ -333,8 +343,9 @@ def run_one(sc: dict) -> dict:
     return run_scenario(sc)
 
 
-def execute_and_judge(run: Run, scenarios: list[dict], own_prefixes: tuple[str, ...]) -> None:
+def execute_and_judge(run: Run, scenarios: list[dict], own_prefixes: tuple[str, ...]) -> list[dict]:
     traces = engine.parallel_map("harness.checks_proto", "run_one", scenarios, procs=16, chunk=40)
+    run.last_traces = traces
     res = engine.judge_protocol_traces(traces, os.path.join(run.workdir, "batches"))
     run.cov["states"] += res["states"]
     run.cov["transitions"] += res["transitions"]
@@ -374,6 +385,75 @@ def execute_and_judge(run: Run, scenarios: list[dict], own_prefixes: tuple[str, 
         note = f"clause {clause} of another property failed in {n} executions of this run (judged by that property's check)"
         if note not in run.notes:
             run.notes = [x for x in run.notes if not x.startswith(f"clause {clause} ")] + [note]
+
+
+DLV_WHAT = {"ans": "ans", "late": "ans", "dup": "ans", "garbage": "garb", "short": "garb", "badcrc": "garb", "exc": "exc",
+            "head": "head", "tail": "tail", "tail+1": "tailx", "tail-1": "tailx", "tailx": "tailc", "foreign": "ans",
+            "foreigntail": "tail"}
+CONF_KEEP = {"CALL", "RET", "SEND", "DLV", "OPEN", "CLOSE", "PEERCLOSE", "ERR", "CONN", "CONNFAIL", "UNHANDLED", "END"}
+
+
+def conformance(run: Run, scenarios: list[dict], traces: list[dict], per_group: int, rnd: random.Random) -> None:
+    """Code -> spec: the recorded events of script scenarios must be a behaviour of Protocol.tla under the same script."""
+    groups: dict[tuple, list[int]] = {}
+    for i, sc in enumerate(scenarios):
+        if sc.get("family") == "script" and "abstract" in sc and sc["retries"] <= 3 and sc["T"] == T:
+            groups.setdefault((sc["kind"], sc["ka"], sc["retries"]), []).append(i)
+    total = drift = 0
+    import concurrent.futures as cf
+    jobs = []
+    for (kind, ka, r), idx in sorted(groups.items()):
+        if len(idx) > per_group:
+            idx = rnd.sample(idx, per_group)
+        scripts = []
+        for i in idx:
+            sc, tr = scenarios[i], traces[i]
+            trmap: dict[int, int] = {}
+            evs = []
+            for ev in tr["ev"]:
+                if ev["e"] not in CONF_KEEP:
+                    continue
+                d = {"e": ev["e"], "t": ev["t"], "r": ev.get("r", 0), "tr": 0, "what": "", "out": ev.get("out", ""),
+                     "why": ev.get("why", "")}
+                if "tr" in ev:
+                    d["tr"] = trmap.setdefault(ev["tr"], len(trmap) + 1)
+                if ev["e"] == "DLV":
+                    d["what"] = DLV_WHAT.get(ev.get("k", ""), "garb")
+                evs.append(d)
+            scripts.append({"rf": sc["abstract"]["rf"], "conn": sc["abstract"]["conn"], "gap": sc["abstract"]["gap"], "ev": evs})
+        path = os.path.join(run.workdir, f"conform_{kind}_{'ka' if ka else 'nka'}_r{r}.json")
+        tlc.write_json(path, scripts)
+        jobs.append((path, f"Conform_{kind}_{'ka' if ka else 'nka'}_r{r}", idx))
+
+    def one(job):
+        path, cfg, idx = job
+        r = tlc.run_tlc("MC_Conform", cfg=cfg, env={"VERIF_SCRIPTS": path}, workers=4, timeout=3000, heap="6g")
+        return r
+
+    with cf.ThreadPoolExecutor(max_workers=4) as ex:
+        for (path, cfg, idx), r in zip(jobs, ex.map(one, jobs)):
+            if not r["ok"]:
+                if r.get("invariant_violated"):
+                    run.notes.append(f"DRIFT: instance {cfg}: the monitor fails on a conforming behaviour of the model ({r['invariant_violated']})")
+                    drift += 1
+                else:
+                    raise engine.MachineryError("ConformProtocol failed on " + cfg + "\n" + r["stdout"][-2500:])
+            okp = {int(x) for x in re.findall(r'CONF\|(\d+)', r["stdout"])}
+            run.cov["states"] += r.get("distinct", 0)
+            run.cov["transitions"] += r.get("generated", 0)
+            for k, i in enumerate(idx):
+                total += 1
+                if (k + 1) not in okp:
+                    drift += 1
+                    if drift <= 4:
+                        run.notes.append("DRIFT: the design model Protocol.tla has no behaviour matching the recorded execution of script "
+                                         + json.dumps({kk: scenarios[i][kk] for kk in ("kind", "ka", "retries", "rfaults", "connects")})[:400])
+            os.remove(path)
+    run.cov["conformance_scripts"] = total
+    run.cov["conformance_drift"] = drift
+    if drift:
+        run.notes.append(f"DRIFT: {drift} of {total} recorded executions are not behaviours of Protocol.tla under their script; the exhaustive "
+                         "model-checking result does not transfer to them until model and code are brought in line (not a violation by itself)")
 
 
 RULE = ("scenarios are enumerated from the fault alphabet exported by the specification (ExportProto.tla) as "
@@ -471,6 +551,7 @@ def check(prop: str, tier: str, seed: int) -> int:
     # witnesses of defects found earlier are always replayed
     scen += witnesses(prop)
     execute_and_judge(run, scen, own)
+    conformance(run, scen, run.last_traces, 150 if quick else 1500, rnd)
     if prop in ("C05", "C09"):
         from . import checks_api
         checks_api.extend(run, prop, tier, rnd)
